@@ -483,7 +483,11 @@ fn parent(id: &str, tier: Tier) -> i32 {
     if (tier == Tier::Thorough || std::env::var("VERIF_FUZZ").is_ok()) && super::fuzzrun::target_for(id).is_some() && std::env::var("VERIF_NO_FUZZ").is_err() {
         super::sut::global_init();
         super::sut::capture_init();
-        let runs: u64 = std::env::var("VERIF_FUZZ_RUNS").ok().and_then(|s| s.parse().ok()).unwrap_or(if id == "C01" || id == "C11" { 1_500_000 } else { 400_000 });
+        let runs: u64 = std::env::var("VERIF_FUZZ_RUNS").ok().and_then(|s| s.parse().ok()).unwrap_or(match id {
+            "C01" => 1_500_000,
+            "C11" => 150_000,
+            _ => 300_000,
+        });
         let fo = super::fuzzrun::run(id, seed, &verif_dir(), &work, runs, w);
         total.evaluations += fo.executed;
         total.extra.insert("fuzz".into(), fo.evidence);
